@@ -106,8 +106,13 @@ Definition fdes_wf (sec : list fde) (base_svma : N) : Prop :=
   pairwise_disj fde f_start f_end sec /\
   forall f, In f sec -> 0 < f_len f /\ base_svma <= f_start f /\ f_start f - base_svma < W32.
 
-Lemma fde_contains_covers f a : fde_contains f a = true <-> covers fde f_start f_end f a.
-Proof. unfold fde_contains, covers, f_end. lia. Qed.
+(* gimli computes an FDE's end with wrapping arithmetic: what it contains it covers; the converse needs a range
+   that does not run past 2^64 *)
+Lemma fde_contains_covers f a : fde_contains f a = true -> covers fde f_start f_end f a.
+Proof. unfold fde_contains, covers, f_end, W64. intros H. split; [lia|]. 
+  assert ((f_start f + f_len f) mod 18446744073709551616 <= f_start f + f_len f) by (apply N.mod_le; discriminate). lia. Qed.
+Lemma covers_fde_contains f a : f_end f < W64 -> covers fde f_start f_end f a -> fde_contains f a = true.
+Proof. unfold fde_contains, covers, f_end, W64. intros Hw H. rewrite N.mod_small by exact Hw. lia. Qed.
 
 Lemma sdg_head_min (A : Type) (key en : A -> N) x t y :
   sdg A key en (x :: t) -> In y (x :: t) -> key x <= key y.
@@ -220,12 +225,12 @@ Lemma cover_dec sec a :
   (exists g, In g sec /\ covers fde f_start f_end g a) \/ (forall g, In g sec -> ~ covers fde f_start f_end g a).
 Proof.
   induction sec as [|f t IH]; [right; intros g []|].
-  destruct (fde_contains f a) eqn:E.
-  - left. exists f. split; [now left | apply fde_contains_covers; exact E].
+  destruct ((f_start f <=? a) && (a <? f_end f)) eqn:E.
+  - left. exists f. split; [now left | unfold covers; lia].
   - destruct IH as [[g [Hg Hc]]|Hn].
     + left. exists g. split; [now right | exact Hc].
     + right. intros g [<-|Hg]; [|apply Hn; exact Hg].
-      intros Hc. apply fde_contains_covers in Hc. congruence.
+      unfold covers. lia.
 Qed.
 
 (* ---------- C12: the presentations agree ---------- *)
